@@ -205,7 +205,7 @@ func mkPool() {
 var c09jRec = verifkit.New("TestVerif_C09_SignedTokens",
 	"JWTs signed in the harness (golang-jwt) under generated key sets (HS256/384/512, ES256, RS256 from a per-run pool; with/without kid; duplicate algorithms; optionally one "+
 		"malformed key), built from a token the reference accepts and then broken in 0..2 factors: signing key not in the set, header alg none / HMAC keyed with public "+
-		"material / mismatched kid, exp missing or past, nbf future, iat future, audience host wrong (case variants allowed), path = sibling with common string prefix / "+
+		"material / another HMAC algorithm than the key declares (same key bytes, same kid) / mismatched kid, exp missing or past, nbf future, iat future, audience host wrong (case variants allowed), path = sibling with common string prefix / "+
 		"ancestor without include-subgroups / missing trailing slash / descendant; oracle: reference decision from the statement; on accept sub and permissions are the "+
 		"token's; non-trivial = decision made by exactly one broken factor; distinct by factors+names")
 
@@ -221,11 +221,14 @@ func TestVerif_C09_SignedTokens(t *testing.T) {
 		group := rapid.SampledFrom(groupNames).Draw(t, "group")
 		host := rapid.SampledFrom([]string{"", "galene.example.org", "galene.example.org:8443"}).Draw(t, "canonicalHost")
 		factors := []string{"sig-notinset", "alg-none", "alg-confuse", "kid-mismatch", "exp-missing", "exp-past", "nbf-future", "iat-future",
-			"host", "path-sibling", "path-ancestor-nosub", "path-noslash", "path-descendant", "badkey-in-set", "aud-split"}
+			"host", "path-sibling", "path-ancestor-nosub", "path-noslash", "path-descendant", "badkey-in-set", "aud-split", "alg-other-hmac", "alg-other-hmac"}
 		nbreak := rapid.SampledFrom([]int{0, 0, 1, 1, 1, 2}).Draw(t, "nbreak")
 		broken := map[string]bool{}
 		for i := 0; i < nbreak; i++ {
 			broken[rapid.SampledFrom(factors).Draw(t, "factor")] = true
+		}
+		if broken["alg-other-hmac"] && !strings.HasPrefix(signer.alg, "HS") {
+			delete(broken, "alg-other-hmac") // only meaningful for a symmetric key
 		}
 		// key set
 		var keys []map[string]any
@@ -367,6 +370,15 @@ func TestVerif_C09_SignedTokens(t *testing.T) {
 			tok.Header["alg"] = "none"
 			s, err = tok.SignedString(jwt.UnsafeAllowNoneSignatureType)
 			badKeyMatters = false
+		case broken["alg-other-hmac"]:
+			// the right key material (and kid, if any) under another algorithm of the same family than the one the key declares
+			other := rapid.SampledFrom([]string{"HS256", "HS384", "HS512"}).Draw(t, "otherHmac")
+			if other == signer.alg {
+				other = map[string]string{"HS256": "HS512", "HS384": "HS256", "HS512": "HS384"}[signer.alg]
+			}
+			tok.Method = jwt.GetSigningMethod(other)
+			tok.Header["alg"] = other
+			s, err = tok.SignedString(signer.sign)
 		case broken["alg-confuse"]:
 			tok.Method = jwt.SigningMethodHS256
 			tok.Header["alg"] = "HS256"
